@@ -47,6 +47,7 @@ type Obligation struct {
 	Result  *SolveResult
 	Blk     *ssa.BasicBlock
 	Blks    []*ssa.BasicBlock
+	Part    int    // k >= 1: k-th part of a check split by incoming edge (parts share the name)
 	Backend string // "smt" or "syntactic"
 	Status  string // discharged | failed
 	Detail  string
@@ -58,6 +59,10 @@ type namedTerm struct {
 }
 
 type Exec struct {
+	olderAtLoad bool
+	part      int
+	partPos   int
+	partNames []string
 	prog    *Program
 	cs      *Contracts
 	facts   []*Term
@@ -246,12 +251,21 @@ func (ex *Exec) oblige(fr *Frame, st *State, kind, label string, goal *Term, pos
 	if label != "" {
 		name += "[" + label + "]"
 	}
-	ex.names[name]++
-	if n := ex.names[name]; n > 1 {
-		name = fmt.Sprintf("%s~%d", name, n)
+	if ex.part > 1 && ex.partPos < len(ex.partNames) {
+		// later parts of a split check reuse the names given to the first part, in order
+		name = ex.partNames[ex.partPos]
+		ex.partPos++
+	} else {
+		ex.names[name]++
+		if n := ex.names[name]; n > 1 {
+			name = fmt.Sprintf("%s~%d", name, n)
+		}
+		if ex.part == 1 {
+			ex.partNames = append(ex.partNames, name)
+		}
 	}
 	g := Implies(st.reach, goal)
-	o := &Obligation{Name: name, Kind: kind, Func: fname, NFacts: len(ex.facts), Goal: g, Text: text, Backend: "smt", Inputs: ex.inputs, Blk: ex.curBlk, Blks: ex.curBlks}
+	o := &Obligation{Name: name, Kind: kind, Func: fname, NFacts: len(ex.facts), Goal: g, Text: text, Backend: "smt", Inputs: ex.inputs, Blk: ex.curBlk, Blks: ex.curBlks, Part: ex.part}
 	if kind == "ensures" || kind == "frame" || kind == "lemma" {
 		o.Blk = nil
 	}
@@ -668,7 +682,19 @@ func (ex *Exec) run(fr *Frame, st *State) callResult {
 				ex.curBlk = nil
 				ex.curBlks = fr.backSrc[h]
 			}
-			ex.backEdge(fr, fr.backSrc[h][0], h, ex.mergeStates(sts))
+			if len(sts) >= 4 && fr.parent == nil {
+				// many incoming back edges: check each separately (same obligation names; every
+				// part must be discharged), so each query carries the facts of one path only
+				ex.partNames = nil
+				for i, s := range sts {
+					ex.part, ex.partPos = i+1, 0
+					ex.curBlks = []*ssa.BasicBlock{fr.backSrc[h][i]}
+					ex.backEdge(fr, fr.backSrc[h][i], h, s)
+				}
+				ex.part = 0
+			} else {
+				ex.backEdge(fr, fr.backSrc[h][0], h, ex.mergeStates(sts))
+			}
 			ex.curBlks = nil
 		}
 	}
